@@ -4,6 +4,7 @@
 // every layer must be reachable exactly once, parent links must designate the owner, and every copy/clone must be
 // deep and equal (all getters + serialization) at copy time and independent afterwards. ASan/LSan + allocation
 // balance decide double frees, use-after-free and leaks.
+#include <tins/pdu_cacher.h>
 #include "view.h"
 #include "pktgen.h"
 #include <tins/packet.h>
@@ -53,6 +54,11 @@ static void register_ops() {
 #define VF_GEN_CLASSES
 #include "gen_tins.inc"
 #undef VF_GEN_CLASSES
+    // the caching wrapper is a layer class too (a template, so the header scan does not list it): a few instantiations join the pool and get
+    // layers stacked on them like any other object
+    reg_ops<PDUCacher<EthernetII> >("PDUCacher<EthernetII>", std::true_type()); reg_ops<PDUCacher<UDP> >("PDUCacher<UDP>", std::true_type());
+    reg_ops<PDUCacher<TCP> >("PDUCacher<TCP>", std::true_type()); reg_ops<PDUCacher<Dot1Q> >("PDUCacher<Dot1Q>", std::true_type());
+    // (no PDUCacher<IP>/<IPv6>: TCP/UDP/ICMPv6 tins_cast their parent to IP/IPv6 for the pseudo-header, and a wrapper answers to that cast -- the open C13 finding, not an ownership matter)
 }
 static const Ops* ops_for(const PDU* p) { for (auto& o : g_ops) if (o.is(p)) return &o; return nullptr; }
 
@@ -91,7 +97,11 @@ static bool check_forest(const std::string& after) {
     for (PDU* r : pool) walk(r, "pool root");
     for (Packet* pk : packets) if (pk->pdu()) walk(pk->pdu(), "Packet");
     if (!ok) return false;
-    if (reach.size() != g_live.size()) {
+    // a PDUCacher<K> contains its K as a member: that live object is owned by the wrapper it sits in (by composition), not through inner_pdu()
+    size_t embedded = 0;
+    { std::vector<std::pair<const char*, const char*>> wr; for (auto& kv : reach) if (cls(kv.first).compare(0, 10, "PDUCacher<") == 0) wr.push_back({(const char*)kv.first, (const char*)kv.first + 4096});
+      if (!wr.empty()) for (auto& kv : g_live) if (!reach.count(kv.first)) for (auto& w : wr) if ((const char*)kv.first > w.first && (const char*)kv.first < w.second && cls(w.first ? (const PDU*)w.first : kv.first).find(cls(kv.first)) != std::string::npos) { ++embedded; break; } }
+    if (reach.size() + embedded != g_live.size()) {
         std::string extra; for (auto& kv : g_live) if (!reach.count(kv.first)) { extra = cls(kv.first); break; }
         violation("unreachable-live-layer/" + after + "/" + extra, std::to_string(g_live.size()) + " live PDU objects but only " + std::to_string(reach.size()) + " are owned by the user's roots (a " + extra + " is owned by nobody: leak) :: " + g_prog); return false;
     }
